@@ -396,6 +396,19 @@ def seed_probe():
         except Exception as e:
             reader.append((a, b, type(e).__name__))
     out["reader"] = reader
+    # merging notices of one holder that carry different prefixes (a tie: which prefix wins must not depend on the seed)
+    from reuse.copyright import merge_copyright_lines
+
+    pre = ["SPDX-FileCopyrightText:", "SPDX-FileCopyrightText: (C)", "SPDX-FileCopyrightText: ©", "Copyright", "Copyright (C)", "Copyright ©", "©",
+           "SPDX-FileCopyrightText: Copyright", "SPDX-FileCopyrightText: Copyright (C)", "SPDX-FileCopyrightText: Copyright ©"]
+    merged = []
+    for a, b in itertools.combinations(range(len(pre)), 2):
+        lines = {f"{pre[a]} 2019 Jane Doe", f"{pre[b]} 2021 Jane Doe"}
+        merged.append((a, b, sorted(merge_copyright_lines(set(lines)))))
+    for a, b, c in itertools.combinations(range(len(pre)), 3):
+        lines = {f"{pre[a]} 2019 Jane Doe", f"{pre[b]} 2021 Jane Doe", f"{pre[c]} 2023 Jane Doe"}
+        merged.append((a, b, c, sorted(merge_copyright_lines(set(lines)))))
+    out["merge"] = merged
     for name in NAMES:
         if name in ("read-error", "git", "git-submodule"):
             continue
